@@ -16,7 +16,7 @@ func init() {
 	register(&Property{
 		ID:        "C44",
 		Patterns:  []string{"./sql/variables", "./sql/rowexec"},
-		Technique: "scope-preservation of SET executors (receiver access-path agreement of all SystemVariableScope.SetValue calls + absence of fixed-scope stores, read from the SetValue implementations, in the executor and its same-package callees); constant-table extraction from the system-variable registry literals (go/types + go/constant): key/name/type-name agreement, default folded against the type constructor's domain, ValueFunction result kind; key-normalisation discipline of the folded-name variable maps: reaching-definition analysis of every map key over go/ssa (phis, helper parameters through all static call sites, closures)",
+		Technique: "scope-preservation of SET executors (receiver access-path agreement of all SystemVariableScope.SetValue calls + absence of fixed-scope stores, read from the SetValue implementations, in the executor and its same-package callees); constant-table extraction from the system-variable registry literals (go/types + go/constant): key/name/type-name agreement, default folded against the type constructor's domain, ValueFunction result kind; key-normalisation discipline of the folded-name variable maps: reaching-definition analysis of every map key over go/ssa (phis, helper parameters through all static call sites, closures); finite folding of the setter's leading guards over (flag, scope type)",
 		Explanation: "The system-variable registry is the pair of map literals systemVars / mariadbSystemVars (sql/variables). Lookups fold the requested name to lower case and index the " +
 			"maps by key, while values are stored under GetName(); every type is built by a types.NewSystem*Type(name, domain...) constructor whose Convert validates SET values and renders " +
 			"SELECT @@var. Decided for every entry: (N1) map key == Name, the key is lower-case and is not declared in both maps (otherwise the variable is unreachable or its value slot is missing); " +
